@@ -4,6 +4,7 @@ import (
 	"fmt"
 	"go/constant"
 	"go/token"
+	"go/types"
 	"sort"
 	"strings"
 
@@ -386,7 +387,7 @@ func namesToMap(c *Ctx, r *Report, rule string) {
 					want := fmt.Sprintf("strings.TrimSpace(%s[%d])", names, it)
 					found := false
 					for _, ev := range o.Trace {
-						if ev.Kind == "mapupdate" && ev.Args[0].String() == want && ev.Args[1].String() == "true" {
+						if ev.Kind == "mapupdate" && ev.Args[0].String() == want && (ev.Args[1].String() == "true" || !isBoolTyped(ev.Args[1])) {
 							found = true
 						}
 					}
@@ -544,4 +545,14 @@ func c13Profiles(c *Ctx, r *Report, cs *Census) {
 	r.Extra["profile_lint_names"] = n
 	// positive control for a rule whose expected count is zero on this tree
 	r.OK("profiles-exist", "<census>", 0, false, fmt.Sprintf("%d RegisterProfile calls, %d lint names checked", len(cs.ProfileRegs), n))
+}
+
+// isBoolTyped: the term has boolean type (a set represented as map[T]struct{}
+// stores a non-boolean marker; membership is then the comma-ok lookup).
+func isBoolTyped(t *T) bool {
+	if t == nil || t.Typ == nil {
+		return true
+	}
+	b, ok := t.Typ.Underlying().(*types.Basic)
+	return ok && b.Info()&types.IsBoolean != 0
 }
